@@ -541,3 +541,7 @@ REGISTRY["C10"]["theorems"] += T("Proofs.C10b", "BLDFM.C10", ["slice_depends_onl
 
 # C20: the sector base function's geometry (the fourth of the four geometric base functions)
 REGISTRY["C20"]["theorems"] += T("Proofs.C20c", "BLDFM.C20", ["sector_is_neg_angle", "sector_range", "sector_zero_iff", "sector_scale_invariant"])
+
+# C09: the stability correction IS the integral of the flux-gradient function (integral form, both sides of neutral)
+REGISTRY["C09"]["theorems"] += T("Proofs.C09c", "BLDFM.C09", ["phiM_hasDerivAt_zero", "fluxGradIntegrand_continuousOn", "psi_integral_unstable",
+                                                               "fluxGradIntegrandStable_eq", "psi_integral_stable"])
